@@ -27,6 +27,8 @@ REPL = [
  ("inputs that fail on the ORIGINAL tree (F01…F29), referenced from known-findings.txt", "inputs that fail on the ORIGINAL tree (F01…F37), referenced from known-findings.txt"),
  ("`/repo` carries only `fix:` commits (F01-F29).", "`/repo` carries only `fix:` commits (F01-F37)."),
  ("* **E2** attributes/doc comments of the item are dropped;", "* **E0** comments inside the extracted bodies are dropped (string-aware lexer), so that no anchor depends on a\n  comment and adding or editing comments never loses one.\n* **E2** attributes/doc comments of the item are dropped;"),
+ ("inputs that fail on the ORIGINAL tree (F01…F37), referenced from known-findings.txt", "inputs that fail on the ORIGINAL tree (F01…F55), referenced from known-findings.txt"),
+ ("`/repo` carries only `fix:` commits (F01-F37).", "`/repo` carries only `fix:` commits (F01-F55)."),
 ]
 for x, y in REPL:
     if y in mid:
